@@ -348,10 +348,10 @@ fn finish(o: &Opts, rep: Report, engines: &[&str], t0: Instant) -> i32 {
 
 fn required_clauses(prop: &str) -> &'static [&'static str] {
     match prop {
-        "C04" => &["c04.subscription", "c04.relay"],
+        "C04" => &["c04.subscription", "c04.relay", "c04.for_each"],
         "C05" => &["c05.error-while-live"],
         "C06" => &["pipe-macro-left-to-right-test", "stage map+flatten", "stage concat", "pipelines over an unbounded iterator", "stage same source value subscribed repeatedly (concat)", "stage same source value subscribed repeatedly (flatten)"],
-        "C07" => &["c07.compare", "c07.take-complete", "c07.take-upstream-stop", "c07.upstream-complete"],
+        "C07" => &["c07.compare", "c07.closure-calls", "c07.take-complete", "c07.take-upstream-stop", "c07.upstream-complete"],
         "C08" => &["c08.greeting", "c08.late-greeter-after-over", "data-sequence", "fanin.completion", "fanin.pull-reaches-member"],
         "C09" => &["c09.boundary", "c09.outstanding-pull", "data-sequence", "fanin.completion"],
         "C10" => &["c10.greeting", "data-sequence", "fanin.completion", "fanin.pull-reaches-member"],
